@@ -135,9 +135,23 @@ fn v2_owned(input: &[u8], acc: &mut Acc) {
         };
         let o = h.to_owned();
         let snap = (h.as_bytes().to_vec(), h.addresses, h.address_bytes().to_vec(), h.tlv_bytes().to_vec(), h.length(), h.len(), format!("{}", h), tlv_list(&h));
-        let mut c2 = o.clone();
+        // clone_from into a slot that held a *different* header of the same family (same bytes, address block inverted)
+        // when that variant parses, else into a copy of itself
+        let mut c2 = {
+            let mut other = h.as_bytes().to_vec();
+            let n = h.address_bytes().len().min(36);
+            for b in other.iter_mut().skip(16).take(n) {
+                *b = !*b;
+            }
+            match v2::Header::try_from(&other[..]) {
+                Ok(x) if n > 0 => x.to_owned(),
+                _ => o.clone(),
+            }
+        };
         c2.clone_from(&o);
         let mut equal = o == h
+            && c2.addresses == h.addresses
+            && c2.as_bytes() == h.as_bytes()
             && h == o
             && !(o != h)
             && !(h != o)
